@@ -62,6 +62,11 @@ def direct(rng, tier, focus=()):
         ops = [o for o in X.gen_cache_history(rng) if o[0] != 'iam' or o[2] in (o[1], o[1] + 10)]
         failures.extend(X.check_cache_history(ops))
         nh += 1
+    import core as _core
+    for e in _core.load_findings('C12'):
+        kops = ((e.get('replay') or {}).get('failure') or {}).get('ops')
+        if e.get('status') == 'known' and kops:
+            failures.extend(X.check_cache_history(kops))
     stats['evaluations'] += nh
     stats['cache_histories'] = nh
     return failures, stats
@@ -69,6 +74,11 @@ def direct(rng, tier, focus=()):
 
 def classify(f):
     k = f.get('kind')
+    if k in ('cache-exception', 'record-is-not-the-latest-iam', 'acquire-is-not-the-latest-iam'):
+        # known: two device instances announced from one address leave orphaned keys behind (KeyError on a later move)
+        if (k != 'cache-exception' or f.get('class') == 'KeyError') and X.address_shared(f.get('ops') or [], f.get('at')):
+            return 'C12-K5'
+        return None
     if k == 'apdu-longer-than-peer-max':
         # known: the payload slice is cut to the peer's maximum and the 3..6 octet header comes on top
         if f.get('payload_len', 10 ** 9) <= f.get('limit', 0) and f.get('enc_len', 0) - f.get('payload_len', 0) <= 6:
